@@ -216,9 +216,20 @@ harness(void)
 	IN(bool, in_force);
 	unsigned i;
 
+#ifdef V_NTOK
+	/* compile-time case split (one CBMC run per token count and first prefix): the propositional problem is too
+	   large otherwise */
+	__CPROVER_assume(in_ntok == V_NTOK && in_pfx0 == V_PFX0);
+#endif
 	__CPROVER_assume(in_ntok >= 1 && in_ntok <= 2 && in_pfx0 <= 4 && in_pfx1 <= 4 && in_blen0 <= 7 && in_blen1 <= 7);
+#ifdef V_NTOK
+	g_ntok = V_NTOK;
+	g_pfx[0] = V_PFX0;
+#else
 	g_ntok = in_ntok;
-	g_pfx[0] = in_pfx0; g_pfx[1] = in_pfx1;
+	g_pfx[0] = in_pfx0;
+#endif
+	g_pfx[1] = in_pfx1;
 	g_blen[0] = in_blen0; g_blen[1] = in_blen1;
 	for (i = 0; i < 7; i++) {
 		g_c[0][i] = i < in_blen0 ? (u8)(in_body0 >> 8 * i) : 0;
@@ -228,8 +239,8 @@ harness(void)
 	g_force = in_force;
 	g_targ.typewchar = in_wsigned ? &typeint : &typeuint;
 	q_lit[0] = mktoken(g_pfx[0], g_blen[0], g_c[0]);
-	q_lit[1] = in_ntok > 1 ? mktoken(g_pfx[1], g_blen[1], g_c[1]) : 0;
-	q_n = in_ntok;
+	q_lit[1] = g_ntok > 1 ? mktoken(g_pfx[1], g_blen[1], g_c[1]) : 0;
+	q_n = g_ntok;
 	q_pos = 0;
 	tok.kind = TSTRINGLIT;
 	tok.lit = q_lit[0];
